@@ -23,7 +23,14 @@ PROFILES = {
     "grow20": [[S(1, None, 2)]],
     "two": [[S(1, 8)], [S(1, None, 2)]],  # 8, then 10, 20, 20
     "fix20x2": [[S(2, 20)]],
+    "shrink": [[S(2, 16)], [S(3, 4)]],      # 16 GB for two ticks, then a later operator that needs 4
+    "rise": [[S(2, 4)], [S(3, 16)]],
+    # operators shorter than a tick that read a little (4 GB: 0.4 ticks of I/O): one forced tick, at most 4 GB in it
+    "sip": [[S(0, None, 0.4)]],
+    "sipcpu": [[S(0.4, None, 0.4)]],
+    "sip2": [[S(0, None, 0.4)], [S(2, 4)]],
 }
+SIPS = ("sip", "sipcpu", "sip2")
 ALLOCS = [8, 16, 32, 40]
 OFFSETS = [0, 1, 2]
 
@@ -37,12 +44,16 @@ PROFILES.update(SMALL)
 def scenario(conts, overcommit):
     """conts: list of (offset, alloc, profile)"""
     pipes = []
-    for off, alloc, prof in conts:
+    placed = any(len(c) > 3 for c in conts)
+    conts = [tuple(c) + (0,) * (4 - len(c)) for c in conts]
+    for off, alloc, prof, pool in conts:
         ops = PROFILES[prof]
-        pipes.append(dict(prio="B", arrival=off, alloc=alloc, profile=prof, parents=[[i - 1] if i else [] for i in range(len(ops))], ops=ops))
-    life = max(off + sum(max(1, int(s["cpu"] * TPS) + int(s["read"] / 20 * TPS)) for o in PROFILES[prof] for s in o) for off, _, prof in conts)
-    ram = 1.6 if all(prof in SMALL for _, _, prof in conts) else POOL_RAM
-    return dict(name="F3", tps=TPS, pools=1, cpus=8, ram=ram, overcommit=overcommit, multi=True, horizon=life + 2, pipelines=pipes)
+        pipes.append(dict(prio="B", arrival=off, alloc=alloc, profile=prof, pool=pool, parents=[[i - 1] if i else [] for i in range(len(ops))], ops=ops))
+    life = max(off + sum(max(1, int(s["cpu"] * TPS) + int(s["read"] / 20 * TPS)) for o in PROFILES[prof] for s in o) for off, _, prof, _ in conts)
+    ram = 1.6 if all(prof in SMALL for _, _, prof, _ in conts) else POOL_RAM
+    # placed variants: several pools, one more than the highest pool used - the last pool stays idle for the whole run
+    npools = max(c[3] for c in conts) + 2 if placed else 1
+    return dict(name="F3", tps=TPS, pools=npools, cpus=8, ram=ram, overcommit=overcommit, multi=True, horizon=life + 2, pipelines=pipes)
 
 
 def drift_cases(tier):
@@ -93,7 +104,7 @@ def run(sc, trace=None):
             asg = []
             for i in arr.get(t, []):
                 p, ops, ps = w.all_pipes[i]
-                a = w.make_assignment(ops, 1, ps["alloc"], 0)
+                a = w.make_assignment(ops, 1, ps["alloc"], ps.get("pool", 0))
                 if a is None:
                     break
                 asg.append(a)
@@ -105,8 +116,8 @@ def run(sc, trace=None):
                 trace.append(dict(tick=t, assigned=[(sc["pipelines"][i]["profile"], sc["pipelines"][i]["alloc"]) for i in arr.get(t, [])],
                                   results=None if res is None else [(r.container_id, r.error) for r in res],
                                   exception=None if w.exception is None else f"{type(w.exception[2]).__name__}: {w.exception[2]}",
-                                  pool=[(c.container_id, c.assignment.ram, c.get_current_memory_usage()) for c in w.executor.pools[0].active_containers],
-                                  reported=w.executor.pools[0].get_consumed_ram_gb()))
+                                  pool=[[(c.container_id, c.assignment.ram, c.get_current_memory_usage()) for c in p.active_containers] for p in w.executor.pools],
+                                  reported=[p.get_consumed_ram_gb() for p in w.executor.pools]))
             if w.ended:
                 break
             w.boundary_checks()
@@ -116,23 +127,58 @@ def run(sc, trace=None):
 
 
 def cases(tier, seed=0):
-    profs = [p for p in PROFILES if p not in SMALL]
+    profs = [p for p in PROFILES if p not in SMALL and p not in ("shrink", "rise") + SIPS]
     one = [(o, a, p) for o in OFFSETS for a in ALLOCS for p in profs]
     out = []
     # two containers: full ordered product (nondecreasing offsets: creation order = list order)
     for c1, c2 in itertools.product(one, repeat=2):
         if c1[0] <= c2[0]:
             out.append((c1, c2))
+    # the same pairs in a cluster of several pools: both in pool 0 next to an idle pool; both in pool 1 between two idle pools;
+    # one each in pools 0 and 1 (an over-committed pool in a cluster whose total promise fits easily)
+    for c1, c2 in list(out):
+        for pa, pb in ((0, 0), (1, 1), (0, 1)):
+            if (pa, pb) == (0, 1) and not (c1[2].startswith("grow") or c2[2].startswith("grow")):
+                continue
+            out.append((c1 + (pa,), c2 + (pb,)))
+    # tiny readers (forced tick) with allocations just above what they read, alone, next to one and next to two others
+    sips = [(o, a, p) for o in (0, 1) for a in (8, 16) for p in SIPS]
+    out.extend((c,) for c in sips)
+    for c1 in sips:
+        for c2 in one:
+            out.append((c1, c2) if c1[0] <= c2[0] else (c2, c1))
+            if c1[0] == c2[0]:
+                out.append((c2, c1))
+    for c1 in sips:
+        for c2, c3 in itertools.product([c for c in one if c[1] in (16, 32) and c[0] < 2 and c[2] in ("grow30", "grow20", "fix16x3", "fix20x2")], repeat=2):
+            cs = sorted((c1, c2, c3), key=lambda c: c[0])
+            out.append(tuple(cs))
     # three containers
     small = [(o, a, p) for o in (0, 1) for a in ((16, 32) if tier == "quick" else (8, 16, 32, 40)) for p in profs]
     for cs in itertools.product(small, repeat=3):
         if cs[0][0] <= cs[1][0] <= cs[2][0]:
             out.append(cs)
+    for cs in itertools.product([c for c in small if c[1] == 32], repeat=3):
+        if cs[0][0] <= cs[1][0] <= cs[2][0]:
+            out.append(tuple(c + (0,) for c in cs))
+            out.append((cs[0] + (1,), cs[1] + (0,), cs[2] + (1,)))
     # sub-GB allocations (scores usage^2/allocation with allocation < 1)
     sub = [(o, a, p) for o in (0, 1) for a in (0.5, 0.75, 4) for p in SMALL]
     for cs in itertools.product(sub, repeat=3):
         if cs[0][0] <= cs[1][0] <= cs[2][0]:
             out.append(cs)
+    # two separate over-capacity episodes with a survivor whose usage dropped in between
+    epi = [(o, 32, p) for o in (0, 1, 2, 3) for p in ("shrink", "rise", "fix16x3", "grow20")]
+    for cs in itertools.product(epi, repeat=4):
+        if all(cs[i][0] <= cs[i + 1][0] for i in range(3)) and any(c[2] == "shrink" for c in cs):
+            out.append(cs)
+    # ... and five-container histories: a survivor of a first episode (it was scored there) shrinks, then a second episode
+    late = [(o, a, p) for o in (3, 4, 5) for (p, a) in (("fix16x3", 32), ("fix16x3", 16), ("grow20", 32), ("grow30", 32), ("fix12x1", 16))]
+    for xo in (1, 2):
+        for xa in (16, 32):
+            for trio in itertools.combinations_with_replacement(late, 3):
+                if trio[0][0] <= trio[1][0] <= trio[2][0]:
+                    out.append(((0, 32, "grow30"), (xo, xa, "shrink")) + trio)
     # four containers from a mini alphabet built around "own-limit kill and pool-level kill in the same tick"
     mini = [(o, a, p) for o in (0, 1) for a in (16, 32) for p in ("fix16x3", "grow30", "grow20")]
     if tier == "quick":
